@@ -45,7 +45,8 @@ fn main() {
             thread_done();
         }));
     }
-    for h in hs { h.join().unwrap(); }
+    let mut panicked = false;
+    for h in hs { if h.join().is_err() { panicked = true; } }
     let inst = inst.lock().unwrap().clone();
     let emit = emit.lock().unwrap().clone();
     println!("installers {:?} emitters {:?}", inst, emit);
@@ -63,5 +64,6 @@ fn main() {
     metrics::with_recorder(|r| r.describe_counter(KeyName::from_const_str("m"), None, SharedString::const_str("d")));
     let late = SEEN.with(|s| s.get());
     if emit.iter().any(|e| e.1 != 0) && late != winner && !v.contains(&"once_seen_always_seen") { v.push("once_seen_always_seen"); }
+    if panicked { v.push("no_panic"); }
     finish(&v, &plan)
 }
